@@ -40,6 +40,9 @@ func (g *hasGen) genComments() {
 func (g *hasGen) generate() {
 	g.genComments()
 	g.P("func (x *", g.typeName, ") Has(fd ", protoreflectPkg.Ident("FieldDescriptor"), ") bool {")
+	g.P("if x == nil {")
+	g.P("x = new(", g.typeName, ") // a nil message reads as an empty one")
+	g.P("}")
 	g.P("switch fd.FullName() {")
 	for _, field := range g.message.Fields {
 		g.genField(field)
